@@ -761,6 +761,9 @@ def v_narrow(v, cname):
         return v_narrow(v_unwrap(v), cname)
     if isinstance(t, UnionTy):
         return Sym(ClassTy(t.world, cname), v.e)
+    if isinstance(t, ClassTy) and t.cname != cname and t.root and t.world.union_root(cname) == t.root:
+        # viewing a member as another member of the same union (only meaningful under the matching recognizer)
+        return Sym(ClassTy(t.world, cname), v.e)
     return v
 
 
